@@ -1051,6 +1051,11 @@ mod pipeline {
             let (err_read, err_write) = crate::popen::make_pipe()?;
             // our end of the pipe must not leak into the commands
             crate::popen::set_inheritable(&err_read, false)?;
+            // Nor may the write end, other than as their standard error
+            // (installed with dup2(), which does not carry the flag over): a
+            // command that closes its standard streams but keeps running
+            // would otherwise keep the pipe open through the extra descriptor.
+            crate::popen::set_inheritable(&err_write, false)?;
             self = self.stderr_to(err_write);
 
             let stdin_data = self.stdin_data.take();
